@@ -217,6 +217,7 @@ func c02record(w *report.W, label, descr, text string, o c02opts, size int) {
 }
 
 func c02run(w *report.W) {
+	seamconfReport(w)
 	if _, err := sigKeys(); err != nil {
 		w.HarnessError("keys: %v", err)
 		return
